@@ -208,7 +208,7 @@ Proof. vm_compute. reflexivity. Qed.
 (* ---- linked blocks and dictionaries through the STREAMING models (see Properties_C03.v): every block of the frame is
    strictly valid against the history the format prescribes, and the frame decodes ---- *)
 From LZ4V Require Import Model.FastStream Model.HcTabStream Model.HcOptStream.
-From LZ4V Require Import Proofs.BlkInstLinked Proofs.BlkInstHcLinked Proofs.BlkFrameInstLinked.
+From LZ4V Require Import Proofs.BlkInstFastLinked Proofs.BlkInstHcLinked Proofs.BlkFrameInstLinked.
 
 Theorem C07_frame_conformant_fast_stream_discharged : forall level st, (forall n, lorc_ok (st n)) ->
   forall c0 po dk ms F X,
